@@ -270,10 +270,22 @@ def pmap(fn, cases, setup=None, nproc=None, describe=None):
                 total.merge(st)
                 continue
             if cur < 0:
-                if a["hung"] and a["tries"] < 3:
+                if a["tries"] < 2:          # stuck at a fork-time lock, or killed by something outside our control: once more
                     pending.append((wid, idxs, a["tries"] + 1))
                     continue
-                raise RuntimeError("worker died outside a case (status %r)" % status)
+                if a["hung"]:
+                    raise RuntimeError("worker hung before its first case three times (machinery)")
+                # the worker died REPEATEDLY while the harness prepared its environment, i.e. inside the library on calls
+                # the harness knows to be legal (VERIFY_CHECK, sanitizer abort, crash): that is a violation, not a machinery
+                # error; the shard's cases stay unexecuted
+                sig = os.WTERMSIG(status) if os.WIFSIGNALED(status) else 0
+                total.cur = None
+                total.fail("the library aborted (signal %d, exit %d) while the harness made the legal preparatory calls of this phase "
+                           "(VERIFY_CHECK / sanitizer report / crash on valid input; see stderr); %d case(s) of this shard could not run"
+                           % (sig, os.WEXITSTATUS(status) if os.WIFEXITED(status) else -1, len(idxs)), {"shard": wid, "first_case": repr(cases[idxs[0]])[:300]})
+                total.count("crash-in-setup")
+                crashes += 1
+                continue
             sig = os.WTERMSIG(status) if os.WIFSIGNALED(status) else 0
             total.cases += idxs.index(cur) + 1
             total.cur = cases[cur]
